@@ -2,7 +2,14 @@
 
 package socks5
 
-import "net"
+import (
+	"context"
+	"net"
+	"net/netip"
+	"time"
+
+	"tunnox-core/internal/core/dispose"
+)
 
 // HandleConnectionForVerif runs the real per-connection path of the listener
 // (deadline, Handshake, dispatch to the tunnel / UDP-relay creator, replies,
@@ -18,4 +25,54 @@ func ParseUDPHeaderForVerif(data []byte) (string, int, []byte, error) {
 // BuildUDPHeaderForVerif exposes the real UDP-associate header encoder.
 func BuildUDPHeaderForVerif(dstHost string, dstPort int, payload []byte) []byte {
 	return (&UDPRelay{}).buildUDPHeader(dstHost, dstPort, payload)
+}
+
+// ---- UDP relay seam -------------------------------------------------------
+//
+// UDPRelay.udpConn is typed *net.UDPConn, a kernel socket that cannot live in
+// the simulator's bubble. The directive below makes the instrumenter retype
+// that field (in the scratch copy only) to the interface declared here, which
+// *net.UDPConn satisfies as well, so NewUDPRelay is unaffected.
+//
+//verif:retype *net.UDPConn UDPConnForVerif
+
+// UDPConnForVerif is the part of *net.UDPConn a relay may use.
+type UDPConnForVerif interface {
+	ReadFromUDP(b []byte) (int, *net.UDPAddr, error)
+	WriteToUDP(b []byte, addr *net.UDPAddr) (int, error)
+	ReadFrom(b []byte) (int, net.Addr, error)
+	WriteTo(b []byte, addr net.Addr) (int, error)
+	ReadFromUDPAddrPort(b []byte) (int, netip.AddrPort, error)
+	WriteToUDPAddrPort(b []byte, addr netip.AddrPort) (int, error)
+	ReadMsgUDP(b, oob []byte) (n, oobn, flags int, addr *net.UDPAddr, err error)
+	WriteMsgUDP(b, oob []byte, addr *net.UDPAddr) (n, oobn int, err error)
+	SetDeadline(t time.Time) error
+	SetReadDeadline(t time.Time) error
+	SetWriteDeadline(t time.Time) error
+	SetReadBuffer(bytes int) error
+	SetWriteBuffer(bytes int) error
+	LocalAddr() net.Addr
+	Close() error
+}
+
+// NewUDPRelayForVerif is NewUDPRelay with the socket supplied by the caller
+// instead of net.ListenUDP: same struct, same clean-up handler, same three
+// goroutines (watchTCPConnection, readLoop, cleanupLoop).
+func NewUDPRelayForVerif(ctx context.Context, tcpConn net.Conn, config *UDPRelayConfig, tunnelCreator UDPTunnelCreator, udpConn UDPConnForVerif) *UDPRelay {
+	relay := &UDPRelay{
+		ServiceBase:   dispose.NewService("UDPRelay", ctx),
+		config:        config,
+		tcpConn:       tcpConn,
+		udpConn:       udpConn,
+		tunnelCreator: tunnelCreator,
+		sessions:      make(map[string]*udpSession),
+	}
+	relay.AddCleanHandler(func() error {
+		relay.closeAllSessions()
+		return udpConn.Close()
+	})
+	go relay.watchTCPConnection()
+	go relay.readLoop()
+	go relay.cleanupLoop()
+	return relay
 }
